@@ -430,6 +430,10 @@ static const a_real w3k[] = {-1, 0, 1, 0, 1, 2, 1, 2, 3};
 // a table that is not sorted by position (left shoulder, right shoulder, middle): the active sets need not be neighbours in table order
 static const a_real u3e[] = {TRI, -1, -1, 0, TRI, 0, 1, 1, TRI, -1, 0, 1};
 static const a_real u3k[] = {-2, 3, 0, 1, -1, 2, 4, 0, -3};
+// two enormously wide ramps and one ordinary triangle: on the whole input lattice the ramps fire with degrees around 1e-9 (far above
+// the activity threshold epsilon, far from crossing it), so away from the triangle the total firing strength of product-type rules is
+// positive but around 1e-18 - a normalisation guarded by "sum > epsilon" instead of "sum > 0" gives up there
+static const a_real n3e[] = {A_MF_LINS, -8, (a_real)1e10, A_MF_LINZ, (a_real)-1e10, 8, A_MF_TRI, -1, 0, 1};
 // the 7 x 7 base of test/pid_fuzzy.h (dyadic scaling)
 #define NL -3
 #define NM -2
@@ -449,13 +453,14 @@ struct Base
     const a_real *me, *mec, *kp, *ki, *kd;
     double base_ki; // the base integral gain keeps ki >= 0 for every consequent
 };
-static const Base BASES[6] = {
+static const Base BASES[7] = {
     {"3x3 shoulder triangles", 3, 2, m3e, m3ec, m3kp, m3ki, m3kd, 0.5},
     {"5x5 trapezoid shoulders", 5, 2, m5e, m5e, m5k, m5k, m5k, 2},
     {"3x3 wide triangles (3 active)", 3, 3, w3e, w3e, w3k, w3k, w3k, 1},
     {"7x7 of test/pid_fuzzy.h", 7, 2, m7e, m7e, m7kp, m7ki, m7kd, 3},
     {"3x3 shoulder triangles without a kp table", 3, 2, m3e, m3ec, nullptr, m3ki, m3kd, 0.5}, // a table may be absent: that gain keeps its base value
     {"3x3 unsorted table (left, right, middle)", 3, 2, u3e, u3e, u3k, u3k, u3k, 3},
+    {"2 huge ramps + triangle (tiny firing strengths)", 3, 3, n3e, n3e, u3k, u3k, u3k, 3},
 };
 static const unsigned OPRS[7] = {A_PID_FUZZY_EQU, A_PID_FUZZY_CAP, A_PID_FUZZY_CAP_ALGEBRA, A_PID_FUZZY_CAP_BOUNDED, A_PID_FUZZY_CUP, A_PID_FUZZY_CUP_ALGEBRA, A_PID_FUZZY_CUP_BOUNDED};
 static const char *OPRN[7] = {"equ", "cap", "cap_algebra", "cap_bounded", "cup", "cup_algebra", "cup_bounded"};
@@ -722,6 +727,8 @@ int main(int argc, char **argv)
                     {
                         long id = item++;
                         if (only >= 0 ? id != only : id % nshards != shard) { continue; }
+                        // (degrees around 1e-8: the two operators whose documented formula is a cancelling difference are not run on this base)
+                        if (BASES[b].me == n3e && (OPRS[opr] == A_PID_FUZZY_EQU || OPRS[opr] == A_PID_FUZZY_CAP_BOUNDED)) { continue; }
                         FuzzyH h;
                         h.B = &BASES[b]; h.opr = opr;
                         h.P = sets[(i * 5) % sets.size()];
